@@ -74,7 +74,7 @@ fn judge(w: &NetWorld, at_quiescence: bool) -> Vec<(String, String)> {
 pub fn run(run: &mut Run) {
     crate::net::init_sleep_sites();
     let quick = run.quick();
-    let deadline = std::time::Instant::now() + Duration::from_secs(if quick { 45 } else { 1500 });
+    let deadline = std::time::Instant::now() + Duration::from_secs(if quick { 90 } else { 1500 });
     let mut plan: Vec<(usize, &'static str, Script)> = vec![];
     for nodes in if quick { vec![2] } else { vec![2, 3] } {
         for strategy in ["none", "arbiter", "newer"] {
@@ -89,6 +89,18 @@ pub fn run(run: &mut Run) {
                 for node in 0..nodes {
                     plan.push((nodes, strategy, Script { ops: vec![(node, c.to_string())] }));
                 }
+            }
+        }
+    }
+    if quick {
+        // three nodes are needed to see a secondary talking to another secondary: the writes and
+        // administrative writes issued on a secondary (thorough runs every command on every node)
+        for strategy in ["none", "newer"] {
+            for c in ["set k v1", "remove k", "increment c", "create-user bob bt", "set-permissions bob rw k*", "set-safe k 0 s0"] {
+                if strategy == "newer" && !c.starts_with("set") {
+                    continue;
+                }
+                plan.push((3, strategy, Script { ops: vec![(2, c.to_string())] }));
             }
         }
     }
